@@ -465,8 +465,8 @@ Proof. intros c vs H. exists (length vs). split; [apply Nat.le_refl|]. rewrite f
 
 Lemma repeat_snoc : forall {T} (x : T) n, repeat x (S n) = repeat x n ++ [x].
 Proof.
-  intros T x n. induction n as [|n IH]; [reflexivity|].
-  change (repeat x (S (S n))) with (x :: repeat x (S n)). rewrite IH. reflexivity.
+  intros T x n. induction n as [|n IH]; cbn [repeat app] in *; [reflexivity|].
+  f_equal. exact IH.
 Qed.
 
 Lemma hb_eq : forall (ad : R) (m : Z),
